@@ -45,10 +45,15 @@ def run_one(chk, kind, nfr, prior, calls, uni):
     for c in calls:
         before = list(api.items_of(kind, b))
         if c[0] == "add":
-            m, p = fresh(c[1])
+            m, p = fresh(c[1].split("@")[0])
             keep.append(p)
             mcalls.append([1, m])
-            thunk = (lambda p=p: b.add_track(p)) if kind != "EM" else (lambda p=p: b.addSignal(p))
+            if kind != "EM":
+                thunk = lambda p=p: b.add_track(p)
+            elif c[1].endswith("@ch"):            # EMG: the same checks must hold when a channel is given explicitly
+                thunk = lambda p=p, ch=500 + counter[0]: b.addSignal(p, channel=ch)
+            else:
+                thunk = lambda p=p: b.addSignal(p)
         elif c[0] == "assign":
             ms, ps = [], []
             for nme in c[1]:
@@ -81,7 +86,7 @@ def judge(chk, kind, nfr, prior, calls, mtracks, mcalls, obs, mres):
         found = None
         if any(l != nfr for l in lens):
             found = "the block now holds a track with %r frames (block: %d)" % ([l for l in lens if l != nfr][0], nfr)
-        elif c[0] == "add" and c[1] != "good" and rc is None:
+        elif c[0] == "add" and c[1].split("@")[0] != "good" and rc is None:
             found = "adding a %s object was accepted" % c[1]
         elif rc is not None and not same:
             found = "%s raised %s but the block's tracks changed" % (c[0], rc)
@@ -110,6 +115,8 @@ def run(chk):
             uni = universe(kind, nfr, rng)
             names = [n for n, _ in uni]
             single = [("add", n) for n in names]
+            if kind == "EM":
+                single += [("add", n + "@ch") for n in names]
             if kind != "EM":
                 single += [("assign", [])]
                 single += [("assign", [a]) for a in names]
@@ -137,11 +144,11 @@ def run(chk):
         runs.append((mtracks, mcalls, obs))
     mres = common.run_model_sharded([(41, [nfr, mt, mc]) for (kind, nfr, prior, seq, uni), (mt, mc, obs) in zip(jobs, runs)])
     for (kind, nfr, prior, seq, uni), (mt, mc, obs), m in zip(jobs, runs, mres):
-        flat = [n for c in seq for n in ([c[1]] if c[0] == "add" else c[1] if c[0] == "assign" else ["bad"])]
+        flat = [n for c in seq for n in ([c[1].split("@")[0]] if c[0] == "add" else c[1] if c[0] == "assign" else ["bad"])]
         chk.note_case((kind, nfr, prior, repr(seq)), any(n != "good" for n in flat))
         chk.count("%s %s" % (kind, "+".join(c[0] for c in seq)))
         judge(chk, kind, nfr, prior, seq, mt, mc, obs, m[1])
-        if len(chk.violations) >= 3:
+        if chk.n_found() >= 3:
             break
 
 
